@@ -332,8 +332,103 @@ class IsaCheck:
             self.count(hit == 0)
             if hit != 0:
                 self.add(["C07"], u.name, "unimpl-executed", "an encoding of the unimplemented instruction %s has a successful execution path" % u.name, hit)
+        self.check_undefined()
         self.finalise()
         return self.findings
+
+    # ------------------------------------------------------------ undefined encodings
+    def word_ranks(self):
+        Mx = bv.M
+        r = set()
+        for k in range(6):
+            for b in spec.word_vars(k):
+                if b > 1:
+                    r.add(Mx.var[b])
+        return r
+
+    def export_bdd(self, a):
+        """a BDD over instruction-word bits as a portable node list [(variable name, lo, hi)], 0/1 terminals"""
+        Mx = bv.M
+        idx = {0: 0, 1: 1}
+        nodes = []
+
+        def rec(n):
+            if n in idx:
+                return idx[n]
+            lo = rec(Mx.lo[n])
+            hi = rec(Mx.hi[n])
+            nodes.append([Mx.names[Mx.var[n]], lo, hi])
+            idx[n] = len(nodes) + 1
+            return idx[n]
+        root = rec(a)
+        return {"nodes": nodes, "root": root}
+
+    def import_bdd(self, d):
+        Mx = bv.M
+        val = {0: 0, 1: 1}
+        for i, (name, lo, hi) in enumerate(d["nodes"]):
+            w, b = name[1:].split(".")
+            v = spec.word_vars(int(w))[int(b)]
+            val[i + 2] = Mx.ITE(v, val[hi], val[lo])
+        return val[d["root"]]
+
+    def check_undefined(self):
+        """every successfully executed word sequence is a valid encoding of an implemented form (C07 title: '... or rejected').  The
+        emulator at the pinned commit ignores a number of reserved / must-be-zero bits; those encodings are listed in
+        tolerated_reserved.json (reviewed table, one BDD over the instruction-word bits per first byte).  An Ok path on any OTHER
+        undefined encoding - a continuation word of the wrong group accepted under a prefix, a hole of the opcode map that starts to
+        execute - is a finding.  Semantic: the set of accepted encodings, not the shape of the decoder."""
+        import json
+        import os
+        Mx = bv.M
+        cov = 0
+        for f in spec.FORMS:
+            cov = Mx.OR(cov, spec.pattern_cond(f.words))
+        for u in spec.UNIMPL:
+            cov = Mx.OR(cov, spec.pattern_cond(u.words))
+        wr = self.word_ranks()
+        stray = 0
+        for o in self.outs:
+            if o.kind != "return" or not isinstance(o.value, Enum) or o.value.variant != models.OK:
+                continue
+            if any(t_ in ("opaque-switch", "opaque-assert", "unknown-callee", "unwrap-opaque") for t_ in o.state.tags):
+                continue     # imprecise traces decide nothing (reported by the per-form comparison)
+            s_ = Mx.AND(o.state.pc, Mx.NOT(cov))
+            if s_ == 0:
+                continue
+            stray = Mx.OR(stray, Mx.exists(s_, set(Mx.support(s_)) - wr))
+        self.stray = {}
+        tolp = os.path.join(os.path.dirname(os.path.abspath(__file__)), "tolerated_reserved.json")
+        tol_tab = {}
+        if os.path.exists(tolp):
+            with open(tolp) as fh:
+                tol_tab = json.load(fh).get("by_first_byte", {})
+        self.cls = "decode"
+        for hb in range(256):
+            c = Mx.AND(self.constraint, bv.eq(self.w0[8:], bv.const(hb, 8)))
+            if c == 0:
+                continue
+            sb = Mx.AND(stray, c)
+            if sb != 0:
+                self.stray[hb] = self.export_bdd(sb)
+            tol = self.import_bdd(tol_tab["%02x" % hb]) if ("%02x" % hb) in tol_tab else 0
+            new = Mx.AND(sb, Mx.NOT(tol))
+            self.count(new == 0)
+            if new != 0:
+                a = Mx.sat_one(new)
+                ws = []
+                for k in range(4):
+                    v = 0
+                    used = False
+                    for i, b in enumerate(spec.word_vars(k)):
+                        if b > 1 and Mx.var[b] in a:
+                            used = True
+                            if a[Mx.var[b]]:
+                                v |= 1 << i
+                    if used or k == 0:
+                        ws.append("%04X" % v)
+                self.add(["C07"], "H'%02Xxx" % hb, "undefined-executed", "a word sequence that encodes no H8/300H instruction (e.g. %s) is executed successfully instead of being rejected; "
+                         "it is not among the reserved-bit patterns the emulator is known to ignore" % " ".join(ws), new)
 
     def compare(self, o, f, sem, care, fs):
         Mx = bv.M
